@@ -306,3 +306,28 @@ func describeValue(v Value) string {
 	}
 	return fmt.Sprintf("%T", v)
 }
+
+// singleScalarStruct: a struct type with exactly one field of scalar sort (metav1.Duration{time.Duration}): as a MAP
+// VALUE it is stored as that scalar.
+func singleScalarStruct(t types.Type) (types.Type, bool) {
+	if _, op := isOpaqueScalar(t); op {
+		return nil, false
+	}
+	st, ok := t.Underlying().(*types.Struct)
+	if !ok || st.NumFields() != 1 {
+		return nil, false
+	}
+	ft := st.Field(0).Type()
+	if scalarSort(ft) == "" {
+		return nil, false
+	}
+	return ft, true
+}
+
+// mapComps: storage components of a MAP VALUE type (like comps, plus single-scalar structs stored as their scalar).
+func mapComps(vt types.Type) [][2]string {
+	if ft, ok := singleScalarStruct(vt); ok {
+		return [][2]string{{"", scalarSort(ft)}}
+	}
+	return comps(vt)
+}
